@@ -4,5 +4,6 @@ CONSTANTS
   MaxDepth = 3
   Universe = "full"
 VIEW View
-PROPERTIES EmitProp
+INVARIANTS InvOneActive
+PROPERTIES PropIssue PropSerial PropRootSetAtomic EmitProp
 CHECK_DEADLOCK FALSE
